@@ -98,32 +98,29 @@ func (c *Case) req(fmtr string, args []string, repeat int) GenReq {
 }
 
 func (c *Case) srcAliases() []srcAlias {
-	by := map[string]map[string]bool{}
-	for _, it := range c.Src.Ifaces {
+	// parseImportsAliases walks the files in the order the loader lists them
+	// (by name: interface by interface, method by method) and keeps, per import
+	// path, the explicit name it saw last
+	last := map[string]string{}
+	for i := range c.Src.Ifaces {
+		it := &c.Src.Ifaces[i]
 		for mi, am := range it.Aliases {
+			// deterministic order within one file does not matter: one alias per path per file
 			for p, a := range am {
 				if a == "" || a == "." || a == "_" {
 					continue
 				}
 				// an alias only exists in the source if that file really imports the package
-				if !fileUses(&it, mi, p) {
+				if !fileUses(it, mi, p) {
 					continue
 				}
-				path := c.Src.Pkgs[p].Path
-				if by[path] == nil {
-					by[path] = map[string]bool{}
-				}
-				by[path][a] = true
+				last[c.Src.Pkgs[p].Path] = a
 			}
 		}
 	}
 	out := []srcAlias{}
-	for p, as := range by {
-		if len(as) == 1 {
-			for a := range as {
-				out = append(out, srcAlias{p, a})
-			}
-		}
+	for p, a := range last {
+		out = append(out, srcAlias{p, a})
 	}
 	sort.Slice(out, func(i, j int) bool { return out[i].Path < out[j].Path })
 	return out
